@@ -575,6 +575,10 @@ fn enumerate_faults(base: &v1::Instance) -> Vec<Fault> {
             ("lower-plus-inf", f64::INFINITY, f64::INFINITY),
             ("upper-minus-inf", f64::NEG_INFINITY, f64::NEG_INFINITY),
             ("lower-above-upper", 2.0, 1.0),
+            ("lower-above-upper-by-1e-17", 1e-17, 0.0),
+            ("lower-above-upper-by-one-ulp", 1.0 + f64::EPSILON, 1.0),
+            ("lower-above-upper-subnormal", 5e-324, 0.0),
+            ("lower-above-upper-tiny-negative", 0.0, -1e-300),
         ] {
             out.push((format!("invalid-bound:{name}@{i}"), Box::new(move |m| m.decision_variables[i].bound = Some(bound(l, u)))));
         }
